@@ -204,6 +204,22 @@ CLAIMED: dict[str, tuple[str, str, str, str]] = {
             "Patterns are abstract predicates with one regex each (table cross-checked against re at start-up); "
             "a file is reported if any file-placement finding names it.",
             TECH),
+    "C03": ("DESIGN.md §5 C03",
+            "spec/Dry.tla states Sound / Mutual / Complete / CountOk / NoDupNoReport over abstract projects "
+            "(token per source line) and models the coded algorithm DryAlgo (rolling windows with original line "
+            "numbers, snippet groups, greedy block de-duplication, occurrence threshold, greedy violation "
+            "de-duplication); TLC checks DryAlgo against the requirement on ALL projects of two files (<=4/5 "
+            "lines) and three files over two statement tokens + blank lines (216k projects, W=2; 396k for W=3 in "
+            "the thorough tier): Sound, Mutual, CountOk, NoDupNoReport hold; Complete has counterexamples "
+            "(prediction, confirmed on the tool); a non-vacuity run of the pinned overlap test violates Mutual. "
+            "Every emitted project is rendered to Python and TypeScript (whitespace differences, trailing and "
+            "whole-line comments) and the tool's findings are judged by DryTrace.tla against layer A, and "
+            "compared with DryAlgo(project) (drift): on the unchanged tree the tool equals the model on every "
+            "project.",
+            "Statement tokens render to one-line module-level assignments (documented block filters out of "
+            "play); Python's 64-bit hash() treated as injective; `covered` = line ranges intersect; quick tier "
+            "samples 4 000 of the 43 560 two-file projects.",
+            TECH),
 }
 
 REASON_NOT_YET = ("no check registered yet in this build; the TLA+ technique applies (see DESIGN.md §5) "
